@@ -78,6 +78,10 @@ func c01Eval(c *choice.Ctx, st *Stats, a *refmodel.Claims, deep bool) {
 		verdict("cbor", dc)
 		st.Outcome("cbor-decoded")
 	} else {
+		if want && derr != nil {
+			// the plain CBOR form of a claims-set that meets every rule of its profile must at least decode
+			c.Failf(fmt.Sprintf("C01:valid-claims-do-not-decode:P%d:cbor", a.P), "DecodeClaimsFromCBOR: %v\n%s", derr, desc)
+		}
 		st.Outcome("cbor-not-comparable")
 	}
 	// JSON
@@ -89,6 +93,9 @@ func c01Eval(c *choice.Ctx, st *Stats, a *refmodel.Claims, deep bool) {
 		verdict("json", dc)
 		st.Outcome("json-decoded")
 	} else {
+		if want && derr != nil {
+			c.Failf(fmt.Sprintf("C01:valid-claims-do-not-decode:P%d:json", a.P), "DecodeClaimsFromJSON: %v\n%s", derr, desc)
+		}
 		st.Outcome("json-not-comparable")
 	}
 }
@@ -131,6 +138,26 @@ func init() {
 					i := c.Choose("fine:"+ax.claim, ax.n)
 					a := g.gen(c, ax.claim)
 					ax.set(a, i)
+					c01Eval(c, c01stats, a, true)
+				}, nil
+			}
+			// long component lists (more entries than any small fixed limit of a decoder), one entry possibly malformed
+			Scenarios[fmt.Sprintf("c01.longlist.p%d.b%d", p, b)] = func() (choice.Scenario, func() any) {
+				g := newCoarseGen(p, b)
+				return func(c *choice.Ctx) {
+					n := []int{33, 65, 129, 257, 1025, 4097}[c.Choose("entries", 6)]
+					bad := c.Choose("malformed-entry", 4) // 0 none, 1 first, 2 middle, 3 last
+					a := g.gen(&choice.Ctx{}, "")
+					a.CompsNil, a.NoMeas, a.Comps = false, nil, nil
+					for i := 0; i < n; i++ {
+						a.Comps = append(a.Comps, okComp(byte(i), []int{32, 48, 64}[i%3]))
+					}
+					if bad != 0 {
+						i := []int{0, 0, n / 2, n - 1}[bad]
+						x := *a.Comps[i]
+						x.MVal = bp(pat(31, 9))
+						a.Comps[i] = &x
+					}
 					c01Eval(c, c01stats, a, true)
 				}, nil
 			}
@@ -251,6 +278,7 @@ func init() {
 				exploreChoice(r, fmt.Sprintf("c01.inplace.p%d.b0", p), 2, dl)
 				exploreChoice(r, fmt.Sprintf("c01.inplace.p%d.b1", p), 2, dl)
 				exploreChoice(r, fmt.Sprintf("c01.uninitialised.p%d.b0", p), 2, dl)
+				exploreChoice(r, fmt.Sprintf("c01.longlist.p%d.b0", p), -1, dl)
 			}
 		} else {
 			for _, p := range []int{1, 2} {
@@ -261,6 +289,8 @@ func init() {
 				}
 				exploreChoice(r, fmt.Sprintf("c01.complist.p%d.b0", p), 3, dl)
 				exploreChoice(r, fmt.Sprintf("c01.complist.p%d.b1", p), 2, dl)
+				exploreChoice(r, fmt.Sprintf("c01.longlist.p%d.b0", p), -1, dl)
+				exploreChoice(r, fmt.Sprintf("c01.longlist.p%d.b1", p), -1, dl)
 				for b := 0; b < 4; b++ {
 					exploreChoice(r, fmt.Sprintf("c01.uninitialised.p%d.b%d", p, b), 3, dl)
 				}
